@@ -696,3 +696,7 @@ mod tests {
         assert_eq!(ids.len(), encoder.get_block_encoders().len());
     }
 }
+
+#[cfg(cberner_raptorq_verif)]
+#[path = "/verif/hooks/encoder_hooks.rs"]
+pub(crate) mod verif_hooks;
